@@ -344,7 +344,9 @@ def _nonneg(v):
                     continue
                 break
             return True, factor * f2
-        if d in ("np.linalg.norm", "numpy.linalg.norm", "np.sqrt"):
+        if d in ("np.linalg.norm", "numpy.linalg.norm"):
+            return True, factor
+        if d in ("np.sqrt",) and e.args and not any(isinstance(x, ast.BinOp) and isinstance(x.op, ast.Sub) for x in ast.walk(e.args[0])):
             return True, factor
     return False, factor
 
@@ -402,5 +404,7 @@ WITNESSES = [
             rule="C17.R1", construct="TriMesh.from_mask"),
     Witness("C17.W11", "menpo/shape/mesh/normals.py", "_normalize", "np.nan_to_num(v / np.sqrt((v ** 2).sum(axis=1, keepdims=True)))", "v / (np.sqrt((v ** 2).sum(axis=1, keepdims=True)) + 1e-08)",
             rule="C17.R4", construct="_normalize", note="seeded change C17-B"),
+    Witness("C17.W12", "menpo/shape/mesh/base.py", "TriMesh.tri_areas", "return np.linalg.norm(np.cross(ij, ik), axis=1) * 0.5",
+            "return np.sqrt((ij ** 2).sum(axis=1) * (ik ** 2).sum(axis=1) - (ij * ik).sum(axis=1) ** 2) * 0.5", rule="C17.R6", construct="TriMesh.tri_areas", note="seeded change R2-C17-C"),
     Witness("C17.T1", "menpo/shape/mesh/base.py", "TriMesh.from_mask", "tm.points = tm.points[isolated_mask, :]", "tm.points = tm.points[isolated_mask]", kind="T"),
 ]
